@@ -134,7 +134,21 @@ func (fr *Frame) callStatic(callee *ssa.Function, c *ssa.CallCommon, args []Val,
 	if !IsRepo(callee) && vc.W.pureExternal(callee) {
 		return fr.uninterpretedCall(callee, args, resT, st)
 	}
+	// a repository function without contract (a small helper, possibly one just extracted from its caller) is
+	// executed in place: its body is part of the caller's proof, its panics are the caller's obligations
+	if vc.W.inlinable(callee) && fr.inlineDepth() < 4 {
+		return fr.callClosure(&Closure{Fn: callee}, args, resT, cond, st, nil)
+	}
 	return fr.havocCall("call to "+qualifiedName(callee)+" without contract", c, args, resT, cond, st)
+}
+
+// inlineDepth: how many function bodies are currently being executed in place above this frame.
+func (fr *Frame) inlineDepth() int {
+	n := 0
+	for p := fr; p != nil; p = p.parent {
+		n++
+	}
+	return n
 }
 
 type loopOverride struct {
